@@ -6,6 +6,9 @@ From WP Require Import hcobs.Stuffing iovec.Geo hcobs.GeoEnc run.RunGeo.
 Import ListNotations.
 Open Scope N_scope.
 
+(* long byte strings are printed as [length, sum of (b+1), sum of (i+1)(b+1)] *)
+Definition dig3 (bs : list N) : list Z := let '(n, s1, s2) := digest bs 0 0 0 in [zn n; zn s1; zn s2].
+
 Inductive xop := XOp (o : geop) | XFin.
 
 Definition obs_enc (e : option genc) : list Z :=
@@ -35,13 +38,13 @@ Fixpoint xrun (ms : nat) (e : option genc) (h : heap) (g : giov) (ops : list xop
                        | Some (g', n) => [1%Z; zn n] :: obs_all None h g' ++ xrun ms None h g' r
                        | None => [[99%Z]] end
       | GERd n => match read h n g with
-                  | Some (g', bs) => (1%Z :: map zn bs) :: obs_all None h g' ++ xrun ms None h g' r
+                  | Some (g', bs) => (1%Z :: dig3 bs) :: obs_all None h g' ++ xrun ms None h g' r
                   | None => [[99%Z]] end
       | _ => [[99%Z]]
       end
     | Some e0 => match ge_step ms e0 h g o with
                  | None => [[99%Z]]
-                 | Some (e', h', g', ret) => (1%Z :: map zn ret) :: obs_all (Some e') h' g' ++ xrun ms (Some e') h' g' r
+                 | Some (e', h', g', ret) => (1%Z :: match o with GERd _ => dig3 ret | _ => map zn ret end) :: obs_all (Some e') h' g' ++ xrun ms (Some e') h' g' r
                  end
     end
   end.
